@@ -75,7 +75,20 @@ fn main() {
         hist_log: Vec::new(),
         hist_cursor: 0,
         table: Vec::new(),
+        protos: Default::default(),
     };
+    if prop == "C18" {
+        for p in schema["protos"].as_array().cloned().unwrap_or_default() {
+            let ui = p["universe"].as_u64().unwrap_or(0) as usize;
+            let nm = universes.get(ui).map(|u| u.modules.len()).unwrap_or(0);
+            let set = monitors::zoo::ProtoSet::from_json(&p, nm);
+            if ui as u64 % nshards == shard {
+                let asn1 = raw.get(ui).map(|u| u.modules.iter().map(vgen::print::print_module).collect::<Vec<_>>().join("\n")).unwrap_or_default();
+                monitors::zoo::c18_validate(&mut ctx.rep, ui, &set, &asn1);
+            }
+            ctx.protos.insert(ui, std::rc::Rc::new(set));
+        }
+    }
     ctx.rep.rule = monitors::zoo::rule_text(&prop);
     let fams = families_for(&prop);
     let mine: Vec<&TypeEntry> = types.iter().filter(|e| fams.contains(&e.family.as_str())).collect();
